@@ -33,9 +33,10 @@ pub enum K {
     BoolLinEq,
     Cumulative,
     PredClause,
+    ViewClause,
 }
 
-pub const ALL_KINDS: [K; 21] = [
+pub const ALL_KINDS: [K; 22] = [
     K::LinLe,
     K::LinEq,
     K::LinNe,
@@ -57,6 +58,7 @@ pub const ALL_KINDS: [K; 21] = [
     K::BoolLinEq,
     K::Cumulative,
     K::PredClause,
+    K::ViewClause,
 ];
 
 #[derive(Clone, Debug)]
@@ -83,6 +85,12 @@ pub struct GenParams {
     /// permille of constraints which are adjusted so that the planted assignment satisfies them
     pub plant_permille: u32,
     pub allow_reified_incremental_cumulative: bool,
+    /// cumulative: largest number of tasks and largest duration
+    pub max_tasks: usize,
+    pub max_dur: i32,
+    /// permille of variables whose domain is limited to at most two values (keeps the search space small
+    /// while allowing more variables, e.g. many nearly fixed tasks)
+    pub small_dom_permille: u32,
 }
 
 impl GenParams {
@@ -105,6 +113,9 @@ impl GenParams {
             dup_vars_permille: 0,
             plant_permille: 750,
             allow_reified_incremental_cumulative: false,
+            max_tasks: 4,
+            max_dur: 3,
+            small_dom_permille: 0,
         }
     }
 }
@@ -141,7 +152,10 @@ pub fn build_vars(p: &GenParams, rv: &[RawVar]) -> Vec<VarDecl> {
     let mut space: u64 = 1;
     for (kind, lb, size, mask, _) in rv {
         let room = (p.space_limit / space).max(1);
-        let max_size = (p.max_dom as u64).min(room).max(1);
+        let mut max_size = (p.max_dom as u64).min(room).max(1);
+        if p.small_dom_permille > 0 && ((*mask as u32 >> 4) * 1000 >> 12) < p.small_dom_permille {
+            max_size = max_size.min(2);
+        }
         let size = 1 + (*size as u64 * max_size >> 8);
         let lb = *lb as i32;
         let decl = match kind % 8 {
@@ -311,7 +325,7 @@ pub fn build_cons(p: &GenParams, vars: &[VarDecl], w: &[i32], rc: &RawCons, inde
     if needs_bool && cx.bools.is_empty() {
         k = K::LinLe;
     }
-    if matches!(k, K::PredClause) && !p.allow_pred_clause {
+    if matches!(k, K::PredClause | K::ViewClause) && !p.allow_pred_clause {
         k = K::LinNe;
     }
     if !allow_dup {
@@ -502,9 +516,9 @@ pub fn build_cons(p: &GenParams, vars: &[VarDecl], w: &[i32], rc: &RawCons, inde
         }
         K::Cumulative => {
             let r = cx.a();
-            let n = cx.cap(1 + pick(r, 4), 0);
+            let n = cx.cap(1 + pick(r, p.max_tasks), 0);
             let starts: Vec<Term> = (0..n).map(|_| cx.term()).collect();
-            let durs: Vec<i32> = (0..n).map(|_| (cx.s().unsigned_abs() as i32) % 4).collect();
+            let durs: Vec<i32> = (0..n).map(|_| (cx.s().unsigned_abs() as i32) % (p.max_dur + 1)).collect();
             let uses: Vec<i32> = (0..n).map(|_| (cx.s().unsigned_abs() as i32) % 4).collect();
             let cap = pick(cx.a(), 5) as i32;
             // a task with positive duration whose usage exceeds the capacity is excluded by
@@ -540,10 +554,42 @@ pub fn build_cons(p: &GenParams, vars: &[VarDecl], w: &[i32], rc: &RawCons, inde
                 .collect();
             Cons::PredClause { preds }
         }
+        K::ViewClause => {
+            let n = 1 + pick(cx.a(), 3);
+            let mut atoms: Vec<ViewPred> = (0..n)
+                .map(|_| {
+                    // views with a scale of magnitude up to 3 and an offset which is usually not a multiple of it
+                    let var = cx.var();
+                    let scale = [-3, -2, -1, 1, 2, 3][pick(cx.a(), 6)];
+                    let offset = (cx.s() as i32).clamp(-4, 4);
+                    let term = Term { var, scale, offset };
+                    let d = &vars[var];
+                    let (x, y) = (scale as i64 * d.lb() as i64 + offset as i64, scale as i64 * d.ub() as i64 + offset as i64);
+                    let val = cx.within(x.min(y) - 1, x.max(y) + 1);
+                    let kind = match cx.a() % 4 {
+                        0 => PKind::Ge,
+                        1 => PKind::Le,
+                        2 => PKind::Eq,
+                        _ => PKind::Ne,
+                    };
+                    ViewPred { term, kind, val }
+                })
+                .collect();
+            if cx.plant && !atoms.iter().any(|p| p.holds(cx.w[p.term.var] as i64)) {
+                // make the first atom true under the planted assignment
+                let p = &mut atoms[0];
+                let t = p.term.scale as i64 * cx.w[p.term.var] as i64 + p.term.offset as i64;
+                match p.kind {
+                    PKind::Ne => p.val = (t + 1) as i32,
+                    _ => p.val = t as i32,
+                }
+            }
+            Cons::ViewClause { atoms }
+        }
     };
     let m = (*mode_pick as u32 * 1000) >> 16;
     let pm = p.mode_permille;
-    let mode = if matches!(cons, Cons::PredClause { .. }) {
+    let mode = if matches!(cons, Cons::PredClause { .. } | Cons::ViewClause { .. }) {
         Mode::Post
     } else if m < pm {
         cx.lit().map(Mode::ImpliedBy).unwrap_or(Mode::Post)
